@@ -602,7 +602,7 @@ fn addr_values(rng: &mut Rng, n: usize) -> Vec<[u8; 32]> {
 pub fn run_c14(ctx: &Ctx) -> Report {
     let mut rep = Report::new("C14");
     rep.corr_module = "Pod".into();
-    rep.expect_classes(&["addr:none", "addr:some", "u64:none", "u64:some", "try:rejected", "max-none:none", "max-none:some", "max-none:default", "odd-none:none", "odd-none:some"]);
+    rep.expect_classes(&["addr:none", "addr:some", "u64:none", "u64:some", "try:rejected", "max-none:none", "max-none:some", "max-none:default", "odd-none:none", "odd-none:some", "serde:containers"]);
     let mut rng = Rng::new(ctx.seed.wrapping_mul(179).wrapping_add(14));
     let vals = addr_values(&mut rng, ctx.scale(300, 5000));
     for a in &vals {
